@@ -84,16 +84,26 @@ func (r restorer) restore() {
 func (p *pp) handleSpecialValues(
 	value reflect.Value, t reflect.Type, verb rune, depth int,
 ) (handled bool) {
+	if depth > 0 && value.Kind() == reflect.Interface && !value.IsNil() {
+		// An interface-typed slice/map element or field: classify the
+		// value it holds, not the interface. Otherwise the wrappers
+		// below and the safe types are not recognized (the static type
+		// is just an interface) before the value is handed to its
+		// formatting methods.
+		p.printValue(value.Elem(), verb, depth)
+		return true
+	}
+
 	switch t {
 	case safeWrapperType:
 		handled = true
 		defer p.startSafeOverride().restore()
-		p.printValue(value.Field(0), verb, depth+1)
+		p.printValue(wrappedValue(value), verb, depth+1)
 
 	case unsafeWrapperType:
 		handled = true
 		defer p.startUnsafeOverride().restore()
-		p.printValue(value.Field(0), verb, depth+1)
+		p.printValue(wrappedValue(value), verb, depth+1)
 
 	case redactableStringType:
 		handled = true
@@ -107,6 +117,21 @@ func (p *pp) handleSpecialValues(
 	}
 
 	return handled
+}
+
+// wrappedValue returns the value enclosed by a Safe() or Unsafe()
+// wrapper. The wrapper keeps it in an unexported field, through which
+// the formatting methods of the enclosed value cannot be called; so
+// when the wrapper itself is accessible, ask it for the value.
+func wrappedValue(wrapper reflect.Value) reflect.Value {
+	if wrapper.CanInterface() {
+		if g, ok := wrapper.Interface().(interface{ GetValue() interface{} }); ok {
+			if v := g.GetValue(); v != nil {
+				return reflect.ValueOf(v)
+			}
+		}
+	}
+	return wrapper.Field(0)
 }
 
 // Sprintfn produces a RedactableString using the provided
